@@ -1,32 +1,834 @@
-"""C17 — vine pair-copula data flow, likelihood and sampling are coherent (first version: end-to-end smoke of likelihood/sample)."""
+"""C17 — vine pair-copula data flow, likelihood and sampling are coherent.
+
+(1) Props/C17.v: the theorems of coq/Spec/VineData*.v, VineLik*.v, VineDfs.v, VineSample*.v, VineClip.v restated and re-checked
+    (full statements where they hold, the strongest partial ones, every refutation with its vm_compute witness), plus
+    Gen_vineclip.v generated (py2coq fragment E) from the four "correction of 0 or 1" lines of Tree.prepare_next_tree and the
+    sampler's `min(max(tmp, EPSILON), 0.99)`, bridged to Model.VineData.clip_h / Spec.VineSampleR.clip_s.
+(2) correspondence, evaluated by vm_compute inside Coq: real vines are fitted with every array tagged by content
+    (tools/vf/vinedata.Tracer); the recorded STRUCTURE and level-1 input pairs drive Model.VineData.vine_data_of and, edge by
+    edge, the two arrays handed to select_copula, the two handed to partial_derivative, the stored edge.U and the columns
+    correlated by get_tau_matrix are compared as provenance terms; get_likelihood(u): every uni_matrix cell read
+    (row, column, written-by / garbage) vs likelihood_reads, the arguments of every density vs vine_lik, the value vs the
+    independent sum of log densities at the model's arguments; _sample_row for EVERY first_ind vs sample_trace; sample(n).
+(3) witness search on the real library (the property's own statement): edge (family, theta) = select_copula on the recorded
+    inputs (called again); stored U strictly inside (0,1) and equal to the h-functions of the edge's copula; the columns of
+    every edge = the textbook conditional CDFs F(L|D), F(R|D) (numeric recursion, independent of the tags); get_likelihood
+    deterministic (twice, after another call, NaN / 0.123 / 0.77 fills of np.empty) and equal to the vine density; two-column
+    tables: KS of the sample against the fitted KDE CDF and Kendall tau of the sample against the selected copula's tau
+    (false-alarm level 1e-9, search only).
+The refutation theorems of Props/C17.v are replayed on tables whose fitted structure IS the Coq witness (F10, F10b).
+"""
+import hashlib
+import math
+import warnings
+
 import numpy as np
-from .C16 import table
+
+from .. import cases
+from .. import vinestruct as VS
+from .. import vinedata as VD
+
+VTS = ('center', 'direct', 'regular')
+KINDS = ('gauss', 'strong', 'heavy', 'mixed', 'indep', 'ties')
+# tables (vinestruct.make_table(seed, 4, 80, kind)) whose fitted structure is the witness of a refutation theorem
+WITNESSES = [
+    {'name': 'provenance_refuted', 'vt': 'direct', 'tseed': 4, 'kind': 'gauss', 'coq': 'train_vine_opt Direct 4 3 (fun _ => tauA) id_order'},
+    {'name': 'provenance_swap_refuted:direct', 'vt': 'direct', 'tseed': 35, 'kind': 'strong',
+     'coq': 'train_vine_opt Direct 4 3 (fun _ => Spec.VineDataProofs.tauS) id_order'},
+    {'name': 'provenance_swap_refuted:regular', 'vt': 'regular', 'tseed': 184, 'kind': 'strong',
+     'coq': 'train_vine_opt Regular 4 3 (fun _ => Spec.VineDataProofs.tauS) id_order'},
+]
+VM_IMPORTS = VD.VM_IMPORTS + '\nFrom Cop Require Import Spec.VineDataProofs.'
 
 
-def run(ctx):
-    from copulas.multivariate import VineCopula
-    rng = np.random.default_rng(ctx.seed + 17)
-    for vt in ('center', 'direct', 'regular'):
-        for d in (2, 3, 4):
-            X = table(rng, d)
-            rep = (f"import numpy as np, pandas as pd\nfrom copulas.multivariate import VineCopula\nrng=np.random.default_rng(1)\n"
-                   f"X=pd.DataFrame(rng.normal(size=(80,{d})), columns=list('abcdefg')[:{d}])\nv=VineCopula('{vt}', random_state=3); v.fit(X)\n"
-                   f"print(v.get_likelihood(np.full((1,{d}),0.4)))\ns=v.sample(5)\nprint(s)\nassert s.shape==(5,{d}) and not s.isna().any().any()\n")
-            try:
-                v = VineCopula(vt, random_state=3)
-                v.fit(X)
-            except Exception as ex:
-                ctx.obligation(f'fit:{vt}:{d}', False, 'correspondence', repr(ex))
-                ctx.violation(f'fit-raises:{vt}:{type(ex).__name__}', f'VineCopula({vt!r}).fit raised {type(ex).__name__}: {ex}', {'repro': rep})
-                continue
-            for what, fn in (('get_likelihood', lambda: v.get_likelihood(np.full((1, d), 0.4))), ('sample', lambda: v.sample(5))):
+def digest(obj):
+    return hashlib.sha1(repr(obj).encode()).hexdigest()[:10]
+
+
+def natlist(l):
+    return '[' + '; '.join(str(int(x)) for x in l) + ']'
+
+
+# ------------------------------------------------------------------------------------------------ plan
+def make_plan(ctx, quick):
+    rng = np.random.default_rng(ctx.seed + 1700)
+    plan = []
+    j = int(ctx.seed)
+    reps = 1 if quick else 4
+    for rep in range(reps):
+        for vt in VTS:
+            for d in range(2, 7):
+                for t in sorted({1, 2, 3, d - 1}):
+                    kind = KINDS[j % len(KINDS)]
+                    j += 1
+                    plan.append({'vt': vt, 'd': d, 't': int(t), 'kind': kind, 'n': int(rng.integers(60, 101)),
+                                 'tseed': int(rng.integers(0, 2 ** 31)), 'src': 'random'})
+    for w in WITNESSES:
+        plan.append({'vt': w['vt'], 'd': 4, 't': 3, 'kind': w['kind'], 'n': 80, 'tseed': w['tseed'], 'src': 'witness', 'witness': w})
+    return plan
+
+
+def args_of(p):
+    return f"{p['vt']!r}, {p['tseed']}, {p['d']}, {p['n']}, {p['kind']!r}, {p['t']}"
+
+
+def repro(p, fn, extra=''):
+    return ("from vf import vinedata as VD\n"
+            f"r = VD.{fn}({args_of(p)}{extra})\n"
+            "print('\\n'.join(map(str, r)))\nassert not r\n")
+
+
+# ------------------------------------------------------------------------------------------------ real side
+def prov_labels(t, struct):
+    """F(i | S) reading of a term with the check that every h-function is the one of the edge LABELLED ({i, x} | S) (Model chk_labels)"""
+    if t[0] == 'M':
+        return (t[1], frozenset())
+    if t[0] != 'H':
+        return None
+    a, b = prov_labels(t[3], struct), prov_labels(t[4], struct)
+    if a is None or b is None or a[1] != b[1] or a[0] == b[0] or a[0] in b[1] or b[0] in a[1]:
+        return None
+    try:
+        (idx, (L, R), D, par) = struct[t[1]][t[2]]
+    except Exception:      # noqa
+        return None
+    if frozenset(D) != a[1] or {L, R} != {a[0], b[0]}:
+        return None
+    return (a[0], a[1] | {b[0]})
+
+
+def trace_plan(p, seed):
+    """everything the real classes do on one plan entry"""
+    X = VS.make_table(p['tseed'], p['d'], p['n'], p['kind'])
+    rec = {'p': p, 'X': X}
+    with VD.Tracer() as tr:
+        v, exc = tr.fit(p['vt'], X, p['t'])
+        rec['v'], rec['exc'] = v, exc
+        if exc is not None:
+            return rec
+        struct = VS.edges_of(v.trees)
+        rec['struct'] = struct
+        # --- fit flow
+        flow, k = [], 0
+        for ti, tree in enumerate(v.trees):
+            row = []
+            for e in tree.edges:
+                sel = tr.selects[k] if k < len(tr.selects) else None
+                k += 1
+                U = None
                 try:
-                    r = fn()
-                    ok = np.isfinite(r) if what == 'get_likelihood' else (r.shape == (5, d) and list(r.columns) == list(X.columns) and not r.isna().any().any())
-                    ctx.obligation(f'{what}:{vt}:{d}', bool(ok), 'correspondence', str(r)[:200])
-                    if not ok:
-                        ctx.violation(f'{what}-bad-result:{vt}', f'VineCopula({vt!r}).{what} on {d} columns returned {str(r)[:120]}', {'repro': rep})
-                except Exception as ex:
-                    ctx.obligation(f'{what}:{vt}:{d}', False, 'correspondence', repr(ex))
-                    ctx.violation(f'{what}-raises:{type(ex).__name__}', f'VineCopula({vt!r}).{what} on {d} columns raised {type(ex).__name__}: {ex}', {'vine_type': vt, 'd': d, 'repro': rep})
-            ctx.case((vt, d), {'vine_type': vt, 'columns': d})
+                    U = (tr.lookup(e.U[0]), tr.lookup(e.U[1]))
+                except Exception:      # noqa
+                    pass
+                pds = sorted([q for q in tr.pds if q['phase'] == 'prepare' and any(s[:2] == (ti, int(e.index)) for s in q.get('stored', []))],
+                             key=lambda q: [s[2] for s in q['stored'] if s[:2] == (ti, int(e.index))][0])
+                row.append({'e': e, 'sel': sel, 'U': U, 'pds': pds})
+            flow.append(row)
+        rec['flow'] = flow
+        rec['n_selects'] = len(tr.selects)
+        rec['n_prepare_pds'] = sum(1 for q in tr.pds if q['phase'] == 'prepare')
+        rec['taus'] = tr.tau_records(v)
+        # --- likelihood (traced, distinct garbage per unwritten cell)
+        u = VD.fixed_u(p['d'], seed % 5)
+        rec['u'] = u
+        rec['lik'] = tr.likelihood(v, u)
+    # --- untraced oracles
+    rec['lik_report'] = VD.likelihood_report(v, u, struct)
+    rec['numeric_flow'] = VD.numeric_flow(v, [(f['sel']['X'], None, None) if f['sel'] else (None, None, None) for row in flow for f in row], struct)
+    rec['sampler'] = [VD.sample_trace_real(v, f) for f in range(p['d'])]
+    from copulas.utils import validate_random_state
+    v.random_state = validate_random_state(1000 + seed)
+    rows = 3
+    try:
+        with warnings.catch_warnings():
+            warnings.simplefilter('ignore')
+            s = v.sample(rows)
+        rec['sample'] = {'shape': tuple(s.shape), 'columns': list(s.columns), 'finite': bool(np.isfinite(s.to_numpy(dtype=float)).all()), 'rows': rows}
+    except Exception as ex:      # noqa
+        rec['sample'] = {'exc': ex, 'rows': rows}
+    # --- edges: (family, theta) is what select_copula returns on the recorded inputs; U inside (0,1) and = h of the edge copula
+    from copulas.bivariate import select_copula
+    eps = VD.library_epsilon()
+    probs = []
+    for ti, row in enumerate(flow):
+        for f in row:
+            e, sel = f['e'], f['sel']
+            tag = f"tree {ti + 1} edge {int(e.index)} ({int(e.L)},{int(e.R)}|{sorted(int(x) for x in e.D)})"
+            if sel is None:
+                probs.append(('edge-copula-not-select-result', tag + ': no select_copula call recorded'))
+                continue
+            if not (e.name is sel['name'] and e.theta is sel['theta']):
+                probs.append(('edge-copula-not-select-result', tag + f": stores ({e.name}, {e.theta}) but select_copula returned ({sel['name']}, {sel['theta']})"))
+            with warnings.catch_warnings():
+                warnings.simplefilter('ignore')
+                try:
+                    again = select_copula(np.array(sel['X'], copy=True))
+                    same = VD.tname(again.copula_type) == VD.tname(e.name) and VD.same_value(float(again.theta), float(e.theta))
+                    if not same:
+                        probs.append(('edge-copula-differs-on-reselect', tag + f": stores ({VD.tname(e.name)}, {e.theta}); select_copula on the same two "
+                                      f"columns returns ({VD.tname(again.copula_type)}, {again.theta})"))
+                except Exception as ex:      # noqa
+                    probs.append(('edge-copula-differs-on-reselect', tag + f': select_copula on the recorded columns raised {type(ex).__name__}: {ex}'))
+            Ue = np.asarray(e.U, dtype=float)
+            if Ue.shape != (2, v.n_sample) or not np.all((Ue > 0) & (Ue < 1)):
+                bad = Ue[~((Ue > 0) & (Ue < 1))] if Ue.ndim == 2 else Ue
+                probs.append(('U-not-strictly-inside-unit-interval', tag + f': edge.U has shape {Ue.shape}, entries outside (0,1): {bad[:4].tolist()}'))
+            if len(f['pds']) == 2:
+                c = VD.copula_of(e)
+                for s, q in enumerate(f['pds']):
+                    if not (VD.tname(q['name']) == VD.tname(e.name) and VD.same_value(float(q['theta']), float(e.theta))):
+                        probs.append(('U-not-h-of-edge-copula', tag + f": U[{s}] computed with ({VD.tname(q['name'])}, {q['theta']}), the edge stores ({VD.tname(e.name)}, {e.theta})"))
+                    exp = np.array(c.partial_derivative(np.array(q['X'], copy=True)), dtype=float)
+                    exp[exp == 0] = eps
+                    exp[exp == 1] = 1 - eps
+                    if Ue.shape == (2, v.n_sample) and not np.array_equal(exp, Ue[s]):
+                        probs.append(('U-not-h-of-edge-copula', tag + f': U[{s}] differs from the corrected partial_derivative of the edge copula at its inputs '
+                                      f'(max diff {float(np.max(np.abs(exp - Ue[s]))):.3g})'))
+            else:
+                probs.append(('U-not-h-of-edge-copula', tag + f": {len(f['pds'])} partial_derivative results stored in edge.U (expected 2)"))
+    rec['edge_problems'] = probs
+    return rec
+
+
+# ------------------------------------------------------------------------------------------------ Coq side
+def coq_expr(rec):
+    p, struct = rec['p'], rec['struct']
+    ins = []
+    for f in rec['flow'][0]:
+        s = f['sel']
+        a = s['x'][1] if s and s['x'][0] == 'M' else 99
+        b = s['y'][1] if s and s['y'][0] == 'M' else 99
+        ins.append((a, b))
+    d, t = p['d'], p['t']
+    return (f"let V := {VS.coq_edges(struct)} in let INS := {VS.coq_pairs(ins)} in let DV := vine_data_of V INS in\n"
+            "  (show_vine_data DV,\n"
+            "   (hgood V, option_map (map (map (fun x => (inputs_okb x, inputs_swappedb x, U_okb x)))) DV),\n"
+            "   option_map (fun D => map (fun t => show_tau_cols (tau_matrix_cols t (nth t D []))) (seq 0 (List.length D))) DV,\n"
+            f"   option_map (fun l => (show_reads (reads_of l), map (map (fun le => (show_col (fst (le_args le)), show_col (snd (le_args le))))) l)) (vine_lik {d} V),\n"
+            f"   map (fun f => show_trace (sample_trace V {t} f)) (seq 0 {d}))")
+
+
+def model_of(out):
+    """parsed 5-tuple -> dict, or a string describing the failure"""
+    m = VD.parse(out)
+    if isinstance(m, str) or not isinstance(m, tuple) or len(m) != 5:
+        return f'cannot read the model output: {str(m)[:200]}'
+    data, (hgood, flags), taus, lik, samp = m
+    try:
+        res = {'hgood': hgood, 'flags': VD.unsome(flags), 'taus': VD.unsome(taus), 'data': None, 'reads': None, 'args': None, 'sample': []}
+        if data is not None:
+            res['data'] = [[{'idx': e[0], 'LR': e[1], 'D': e[2], 'par': VD.unsome(e[3]), 'in': e[4], 'U': e[5]} for e in row] for row in VD.unsome(data)]
+        if lik is not None:
+            reads, args = VD.unsome(lik)
+            res['reads'] = [(r[0], r[1], r[2], VD.unsome(r[3])) for r in reads]
+            res['args'] = args
+        for s in samp:
+            if s is None:
+                res['sample'].append(None)
+            else:
+                a, vis = VD.unsome(s)
+                res['sample'].append(([(x[0], x[1]) for x in a], vis))
+        return res
+    except Exception as ex:      # noqa
+        return f'cannot read the model output ({type(ex).__name__}: {ex}): {str(m)[:200]}'
+
+
+# ------------------------------------------------------------------------------------------------ judgement
+def judge(ctx, rec, model, stats):
+    p = rec['p']
+    vt, d, t, kind = p['vt'], p['d'], p['t'], p['kind']
+    tag = f"{vt}:d{d}:t{t}:{kind}:{p['tseed']}"
+    v, struct = rec['v'], rec['struct']
+    base = {'plan': {k: p[k] for k in ('vt', 'd', 't', 'kind', 'n', 'tseed')}, 'structure': struct}
+    where = f"VineCopula({vt!r}).fit(make_table({p['tseed']}, {d}, {p['n']}, {kind!r}), truncated={t})"
+    if isinstance(model, str):
+        ctx.obligation(f'corr:model-output:{tag}', False, 'correspondence', model)
+        return
+    # ---------------- (a) fit flow: select_copula inputs, partial_derivative inputs, edge.U
+    mdata = model['data']
+    flow_ok_all = mdata is not None and len(mdata) == len(rec['flow'])
+    bad_model_edges, f10_seen = [], []
+    for ti, row in enumerate(rec['flow']):
+        for ei, f in enumerate(row):
+            e = f['e']
+            L, R, D = int(e.L), int(e.R), sorted(int(x) for x in e.D)
+            lab = f"tree {ti + 1} edge {int(e.index)} ({L},{R}|{D})"
+            real_in = None if f['sel'] is None else (VD.enc(f['sel']['x']), VD.enc(f['sel']['y']))
+            real_U = None if f['U'] is None else (VD.enc(f['U'][0]), VD.enc(f['U'][1]))
+            real_pd = [(VD.enc(q['x']), VD.enc(q['y'])) for q in f['pds']]
+            m = None
+            try:
+                m = mdata[ti][ei]
+            except Exception:      # noqa
+                pass
+            if m is None:
+                corr_ok = False
+                detail = 'the model has no such edge (vine_data_of = None?)'
+            else:
+                mU0, mU1 = VD.dec_col(list(m['U'][0])), VD.dec_col(list(m['U'][1]))
+                model_pd = [(VD.enc(mU0[3]), VD.enc(mU0[4])), (VD.enc(mU1[3]), VD.enc(mU1[4]))]
+                corr_ok = (real_in == (list(m['in'][0]), list(m['in'][1])) and real_U == (list(m['U'][0]), list(m['U'][1]))
+                           and real_pd == model_pd)
+                detail = '' if corr_ok else (f"{lab}: select_copula got ({VD.show_term(f['sel']['x']) if f['sel'] else None}, {VD.show_term(f['sel']['y']) if f['sel'] else None}), "
+                                             f"model ({VD.show_term(VD.dec_col(list(m['in'][0])))}, {VD.show_term(VD.dec_col(list(m['in'][1])))}); "
+                                             f"U = ({VD.show_term(f['U'][0]) if f['U'] else None}, {VD.show_term(f['U'][1]) if f['U'] else None}), model ({VD.show_term(mU0)}, {VD.show_term(mU1)}); "
+                                             f"partial_derivative inputs {[(VD.show_term(q['x']), VD.show_term(q['y'])) for q in f['pds']]}")
+            flow_ok_all = flow_ok_all and corr_ok
+            if not corr_ok:
+                ctx.violation(f'corr:fit-flow:{vt}:tree{ti + 1}', f"{where}: the arrays that reach select_copula / partial_derivative / edge.U differ from Model.VineData.vine_data_of "
+                              f"on the recorded structure: {detail}", dict(base, edge=lab, repro=repro(p, 'repro_columns')))
+            # property-level reading of the REAL tags
+            S = frozenset(D)
+            want_in = ((L, S), (R, S))
+            want_U = ((L, S | {R}), (R, S | {L}))
+            got_in = None if f['sel'] is None else (prov_labels(f['sel']['x'], struct), prov_labels(f['sel']['y'], struct))
+            got_U = None if f['U'] is None else (prov_labels(f['U'][0], struct), prov_labels(f['U'][1], struct))
+            in_ok = got_in == want_in or (ti == 0 and got_in == (want_in[1], want_in[0]))
+            U_ok = got_U == want_U
+            stats['edges'] += 1
+            if ti == 0 and got_in == (want_in[1], want_in[0]) and L != R:
+                stats['level1_inputs_in_path_order'] += 1
+            mflag = None
+            try:
+                mflag = {'hgood': model['hgood'][ti][ei], 'inputs_ok': model['flags'][ti][ei][0], 'swapped': model['flags'][ti][ei][1], 'U_ok': model['flags'][ti][ei][2]}
+            except Exception:      # noqa
+                pass
+            if mflag is not None:
+                # criterion_exact: from level 2 on, (inputs_okb && U_okb) = hgood
+                if ti >= 1 and (mflag['inputs_ok'] and mflag['U_ok']) != mflag['hgood']:
+                    ctx.obligation(f'criterion-exact:{tag}:tree{ti + 1}:{ei}', False, 'correspondence', f'{lab}: flags {mflag}')
+                if not mflag['hgood']:
+                    bad_model_edges.append((ti + 1, ei))
+            if in_ok and U_ok:
+                stats['edges_ok'] += 1
+                continue
+            kindw = 'swapped' if got_in == (want_in[1], want_in[0]) else 'wrong'
+            stats['edges_' + kindw] += 1
+            what = (f"{where}: {lab} -- select_copula received ({VD.show_prov(got_in[0]) if got_in else None}, {VD.show_prov(got_in[1]) if got_in else None}) "
+                    f"instead of (F({L}|{','.join(map(str, D))}), F({R}|{','.join(map(str, D))})); edge.U = [{VD.show_prov(got_U[0]) if got_U else None}, "
+                    f"{VD.show_prov(got_U[1]) if got_U else None}] instead of [F({L}|{','.join(map(str, sorted(S | {R})))}), F({R}|{','.join(map(str, sorted(S | {L})))})]"
+                    f" (terms: {VD.show_term(f['sel']['x']) if f['sel'] else None} , {VD.show_term(f['sel']['y']) if f['sel'] else None})")
+            predicted = corr_ok and mflag is not None and not mflag['hgood'] and vt in ('direct', 'regular') and ti >= 2
+            if predicted:
+                key = f'F10:wrong-conditional-columns:{vt}:tree{ti + 1}'
+                f10_seen.append((ti + 1, ei))
+                stats['F10'][f'{vt}:tree{ti + 1}'] = stats['F10'].get(f'{vt}:tree{ti + 1}', 0) + 1
+            else:
+                key = f'provenance:wrong-columns:{vt}:tree{ti + 1}'
+            ctx.violation(key, what, dict(base, edge=lab, model_flags=mflag, repro=repro(p, 'repro_columns', f', only_tree={ti + 1}')))
+    ctx.obligation(f'corr:fit-flow:{tag}', flow_ok_all, 'correspondence', '' if flow_ok_all else 'see violation corr:fit-flow')
+    # call counts: one select_copula and two partial_derivative calls per edge, nothing else
+    n_edges = sum(len(r) for r in struct)
+    cnt_ok = rec['n_selects'] == n_edges and rec['n_prepare_pds'] == 2 * n_edges
+    ctx.obligation(f'corr:call-counts:{tag}', cnt_ok, 'correspondence', f"{rec['n_selects']} select_copula / {rec['n_prepare_pds']} partial_derivative calls for {n_edges} edges")
+    if not cnt_ok:
+        ctx.violation(f'corr:call-counts:{vt}', f"{where}: {rec['n_selects']} select_copula and {rec['n_prepare_pds']} partial_derivative calls during fit for {n_edges} edges "
+                      "(model: one and two per edge)", dict(base, repro=repro(p, 'repro_columns')))
+    # the numeric oracle (independent of the tags) must single out the same edges
+    num_bad = sorted({(b[0], b[1]) for b in rec['numeric_flow']})
+    tag_bad = sorted(set(f10_seen) | {(ti + 1, ei) for ti, row in enumerate(rec['flow']) for ei, f in enumerate(row)
+                                      if not _edge_ok(f, struct, ti)})
+    cons = num_bad == tag_bad
+    ctx.obligation(f'oracle:numeric-columns-agree-with-tags:{tag}', cons, 'correspondence', f'numeric {num_bad} tags {tag_bad}: {rec["numeric_flow"][:2]}')
+    if not cons:
+        extra_num = [b for b in rec['numeric_flow'] if (b[0], b[1]) not in tag_bad]
+        if extra_num:
+            b = extra_num[0]
+            ctx.violation(f'columns-not-conditional-cdfs:{vt}:tree{b[0]}', f"{where}: tree {b[0]} edge {b[1]} ({b[2][0]},{b[2][1]}|{b[2][2]}): {b[3]}",
+                          dict(base, problems=[str(x) for x in rec['numeric_flow'][:6]], repro=repro(p, 'repro_columns', f', only_tree={b[0]}')))
+    # edge copulas / U
+    for k, msg in rec['edge_problems']:
+        ctx.violation(f'{k}:{vt}', f'{where}: {msg}', dict(base, repro=repro(p, 'repro_columns')))
+    ctx.obligation(f'oracle:edge-copula-and-U:{tag}', not rec['edge_problems'], 'correspondence', str(rec['edge_problems'][:2]))
+    # ---------------- (b) get_tau_matrix columns
+    mt = model['taus']
+    for lvl, M in sorted(rec['taus'].items()):
+        real = [[None if c is None else ((VD.enc(c[0]), VD.enc(c[1])) if c[0] != 'ambiguous' else 'ambiguous') for c in row] for row in M]
+        mod = None
+        try:
+            mod = [[None if c is None else (list(VD.unsome(c)[0]), list(VD.unsome(c)[1])) for c in row] for row in mt[lvl]]
+        except Exception:      # noqa
+            pass
+        ok = real == mod
+        ctx.obligation(f'corr:tau-columns:{tag}:tree{lvl + 1}', ok, 'correspondence', '' if ok else f'real {real} model {mod}')
+        if not ok:
+            ctx.violation(f'corr:tau-columns:{vt}:tree{lvl + 1}', f"{where}: Tree.get_tau_matrix of tree {lvl + 1} correlates / writes other cells than Model.VineData.tau_matrix_cols: "
+                          f"real {[[None if c is None else (VD.show_term(c[0]), VD.show_term(c[1])) if c[0] != 'ambiguous' else c for c in row] for row in M]}",
+                          dict(base, real=str(real), model=str(mod), repro=repro(p, 'repro_columns')))
+    # ---------------- (c) likelihood
+    lk, rep = rec['lik'], rec['lik_report']
+    real_reads = [(r[0], r[2], r[3], VD.enc(r[4])) if isinstance(r[2], int) else tuple(r) for r in lk['reads']]
+    mod_reads = None if model['reads'] is None else [(r[0], r[1], r[2], None if r[3] is None else list(r[3])) for r in model['reads']]
+    if lk['exc'] is not None:
+        ok = mod_reads is None
+        ctx.obligation(f'corr:likelihood-reads:{tag}', ok, 'correspondence', f"raised {lk['exc']!r}, model reads {mod_reads}")
+        ctx.violation(f'likelihood-raises:{vt}:{type(lk["exc"]).__name__}', f"{where}; get_likelihood({rec['u'].tolist()}) raised {type(lk['exc']).__name__}: {lk['exc']}",
+                      dict(base, repro=repro(p, 'repro_likelihood')))
+    else:
+        ok = real_reads == mod_reads
+        ctx.obligation(f'corr:likelihood-reads:{tag}', ok, 'correspondence', '' if ok else f'real {real_reads} model {mod_reads}')
+        if not ok:
+            ctx.violation(f'corr:likelihood-reads:{vt}', f"{where}; get_likelihood reads uni_matrix cells (tree, row, col, content) {real_reads}, Model.VineData.likelihood_reads_of gives {mod_reads}",
+                          dict(base, repro=repro(p, 'repro_likelihood')))
+        # arguments of the densities: first partial_derivative call of every edge has the same [left_u, right_u]
+        real_args, seen = {}, set()
+        for q in lk['pds']:
+            if (q['tree'], q['edge']) not in seen:
+                seen.add((q['tree'], q['edge']))
+                real_args[(q['tree'], q['edge'])] = (VD.enc(q['x']), VD.enc(q['y']))
+        margs = model['args'] or []
+        mod_args = {(ti, ei): (list(a[0]), list(a[1])) for ti, row in enumerate(margs) for ei, a in enumerate(row)}
+        aok = real_args == mod_args
+        ctx.obligation(f'corr:likelihood-args:{tag}', aok, 'correspondence', '' if aok else f'real {real_args} model {mod_args}')
+        if not aok:
+            ctx.violation(f'corr:likelihood-args:{vt}', f"{where}; get_likelihood evaluates the pair copulas at other arguments than Model.VineData.vine_lik: real {real_args}, model {mod_args}",
+                          dict(base, repro=repro(p, 'repro_likelihood')))
+        # value = independent sum over the edges of log densities at the MODEL's arguments (garbage cells: the traced fill)
+        garbage_reads = [r for r in real_reads if r[3] is None]
+        try:
+            terms = [[(VD.dec_col(list(a[0])), VD.dec_col(list(a[1]))) for a in row] for row in margs]
+            indep = VD.sum_log_densities(terms, v.trees, rec['u'][0], lk['garbage'])
+        except Exception as ex:      # noqa
+            indep = f'{type(ex).__name__}: {ex}'
+        vok = VD.close(lk['value'], indep) or (isinstance(indep, float) and indep != indep and lk['value'] != lk['value'])
+        ctx.obligation(f'corr:likelihood-value:{tag}', vok, 'correspondence', f"get_likelihood = {lk['value']!r}, independent sum = {indep!r}")
+        if not vok:
+            ctx.violation(f'corr:likelihood-value:{vt}', f"{where}; get_likelihood({rec['u'].tolist()}) = {lk['value']!r} but the sum over the edges of the log pair-copula densities at the "
+                          f"model's h-propagated arguments is {indep!r}", dict(base, repro=repro(p, 'repro_likelihood')))
+        # property-level: determinism and equality with the vine density
+        keys = ['nan', 'nan_again', '0.123', '0.123_after_other_call', '0.77', 'plain', 'plain_again']
+        det = all(VD.same_value(rep[k], rep['nan']) for k in keys)
+        model_garbage = mod_reads is not None and any(r[3] is None for r in mod_reads)
+        stats['lik_runs'] += 1
+        if garbage_reads:
+            stats['lik_garbage'][vt] = stats['lik_garbage'].get(vt, 0) + 1
+        if not det or garbage_reads:
+            cells = [(r[0] + 1, r[1], r[2]) for r in real_reads if r[3] is None]
+            what = (f"{where}; get_likelihood(u = {rec['u'][0].tolist()}) reads uni_matrix cells that no edge of the previous tree wrote (tree, row, col) = {cells}; "
+                    f"its value is np.empty garbage: NaN fill -> {rep['nan']}, 0.123 fill -> {rep['0.123']}, 0.77 fill -> {rep['0.77']}, no fill -> {rep['plain']} "
+                    f"(vine density at u: {rep['spec']})")
+            if model_garbage and ok and garbage_reads and vt in ('direct', 'regular'):
+                key = f'F10b:likelihood-reads-unwritten-cells:{vt}'
+            else:
+                key = f'likelihood-not-deterministic:{vt}'
+                if not garbage_reads:
+                    what = f"{where}; get_likelihood(u) is not a function of (model, u): " + ', '.join(f'{k}: {rep[k]}' for k in keys)
+            ctx.violation(key, what, dict(base, values={k: rep[k] for k in rep}, unwritten_cells=cells, repro=repro(p, 'repro_likelihood')))
+        all_good = not bad_model_edges
+        if all_good or det:
+            sok = VD.close(rep['0.123'], rep['spec'])
+            if not sok and not (garbage_reads and not det):
+                # wrong but garbage-free arguments
+                wrong = [(ti + 1, ei) for (ti, ei), a in sorted(real_args.items()) if not _args_ok(a, struct, ti, ei)]
+                if wrong and not all_good and vt in ('direct', 'regular') and all(w in bad_model_edges for w in wrong):
+                    key = f'F10:likelihood-wrong-arguments:{vt}:tree{wrong[0][0]}'
+                else:
+                    key = f'likelihood-not-sum-of-edge-densities:{vt}'
+                ctx.violation(key, f"{where}; get_likelihood(u = {rec['u'][0].tolist()}) = {rep['0.123']} but the vine density (sum over the edges of log c(F(L|D), F(R|D))) is {rep['spec']}"
+                              f" (edges with wrong arguments: {wrong})", dict(base, values={k: rep[k] for k in rep}, repro=repro(p, 'repro_likelihood')))
+            ctx.obligation(f'oracle:likelihood-is-vine-density:{tag}', sok or not all_good, 'correspondence', f"get_likelihood {rep['0.123']} spec {rep['spec']}")
+    # ---------------- (d) the row sampler, every first_ind
+    for f, s in enumerate(rec['sampler']):
+        ms = model['sample'][f] if f < len(model['sample']) else 'missing'
+        if s['err'] is not None:
+            ok = ms is None
+            real_desc = f"raised {type(s['err']).__name__}: {s['err']}"
+        else:
+            real_assign = [(i, tm) for i, tm in s['assign']]
+            ok = ms not in (None, 'missing') and real_assign == [(a, list(b)) for a, b in ms[0]] and list(reversed([i for i, _ in real_assign])) == list(ms[1]) \
+                and all(c['family_ok'] for c in s['pp']) and s['rnd'] == {'uniform': 1, 'randint': 1} \
+                and s['row'] == [100.0 + i for i in range(d)]
+            real_desc = f"ppfs arguments {real_assign}, percent_point calls {[(c['edge'], c['family_ok']) for c in s['pp']]}, rng calls {s['rnd']}, row {s['row']}"
+        ctx.obligation(f'corr:sampler:{tag}:first{f}', ok, 'correspondence', '' if ok else f'real: {real_desc}; model: {ms}')
+        if not ok:
+            ctx.violation(f'corr:sampler-trace:{vt}', f"{where}; _sample_row with first_ind = {f}: {real_desc}; Model.VineData.sample_trace gives {ms}",
+                          dict(base, first_ind=f, repro=repro(p, 'repro_sampler')))
+    sm = rec['sample']
+    if 'exc' in sm:
+        sok = False
+        ctx.violation(f'sample-raises:{vt}:{type(sm["exc"]).__name__}', f"{where}; sample({sm['rows']}) raised {type(sm['exc']).__name__}: {sm['exc']}", dict(base, repro=repro(p, 'repro_sampler')))
+    else:
+        sok = sm['shape'] == (sm['rows'], d) and sm['columns'] == list(rec['X'].columns) and sm['finite']
+        if not sok:
+            ctx.violation(f'sample-bad-output:{vt}', f"{where}; sample({sm['rows']}) returned shape {sm['shape']}, columns {sm['columns']}, all finite: {sm['finite']}",
+                          dict(base, repro=repro(p, 'repro_sampler')))
+    ctx.obligation(f'oracle:sample-shape:{tag}', sok, 'correspondence', str(sm))
+    fams = [VD.tname(f['e'].name) for row in rec['flow'] for f in row]
+    for a in fams:
+        stats['families'][a] = stats['families'].get(a, 0) + 1
+    ctx.case((vt, d, t, kind, digest(struct)),
+             {'vine_type': vt, 'd': d, 'truncated': t, 'table': kind, 'rows': p['n'], 'table_seed': p['tseed'], 'source': p['src'], 'structure': struct,
+              'model_bad_edges(tree,idx)': bad_model_edges, 'likelihood': {'traced': lk['value'], 'nan_fill': rep['nan'], 'fill_0.123': rep['0.123'], 'vine_density': rep['spec']},
+              'unwritten_cells_read': [(r[0] + 1, r[1], r[2]) for r in real_reads if r[3] is None] if lk['exc'] is None else None,
+              'families': fams[:8]}, nontrivial=d >= 3)
+
+
+def _edge_ok(f, struct, ti):
+    e = f['e']
+    L, R, S = int(e.L), int(e.R), frozenset(int(x) for x in e.D)
+    if f['sel'] is None or f['U'] is None:
+        return False
+    gi = (prov_labels(f['sel']['x'], struct), prov_labels(f['sel']['y'], struct))
+    gu = (prov_labels(f['U'][0], struct), prov_labels(f['U'][1], struct))
+    return (gi == ((L, S), (R, S)) or (ti == 0 and gi == ((R, S), (L, S)))) and gu == ((L, S | {R}), (R, S | {L}))
+
+
+def _args_ok(a, struct, ti, ei):
+    try:
+        (idx, (L, R), D, par) = struct[ti][ei]
+        x, y = VD.dec_col(a[0]), VD.dec_col(a[1])
+        return prov_labels(x, struct) == (L, frozenset(D)) and prov_labels(y, struct) == (R, frozenset(D))
+    except Exception:      # noqa
+        return False
+
+
+# ------------------------------------------------------------------------------------------------ refutation witnesses
+def witnesses(ctx, recs, outs_w, stats):
+    """the fitted structure of the witness tables must BE the Coq witness; then the refuted statements are read off the real run"""
+    for w, out in zip(WITNESSES, outs_w):
+        rec = next((r for r in recs if r['p'].get('witness') is w), None)
+        mv = VS.parse_vine(out)
+        if rec is None or rec.get('exc') is not None or isinstance(mv, str) or mv is None:
+            ctx.log(f"witness {w['name']}: not evaluated ({out!r:.80})")
+            stats['witnesses'][w['name']] = 'not evaluated'
+            continue
+        same = rec['struct'] == mv
+        stats['witnesses'][w['name']] = 'structure reproduced on the real library' if same else f"real structure {rec['struct']} != witness {mv}"
+        if not same:
+            ctx.log(f"witness {w['name']}: the table no longer reproduces the witness structure (not a violation by itself)")
+            continue
+        f = rec['flow'][2][0]
+        got = (VD.prov(f['sel']['x']), VD.prov(f['sel']['y']), VD.prov(f['U'][0]), VD.prov(f['U'][1]))
+        if w['name'] == 'provenance_refuted':
+            exp = ((3, frozenset({0, 2})), (2, frozenset({0, 1})), None, None)
+        else:
+            exp = ((3, frozenset({0, 1})), (2, frozenset({0, 1})), (3, frozenset({0, 1, 2})), (2, frozenset({0, 1, 3})))
+        ok = got == exp
+        ctx.obligation(f"witness:{w['name']}:replayed-on-real-classes", ok, 'correspondence',
+                       f"tree 3 edge: select_copula inputs / U read as {[VD.show_prov(g) for g in got]}, theorem says {[VD.show_prov(g) for g in exp]}")
+        if w['name'] == 'provenance_refuted':
+            # C17_first_inputs_order_refuted / C17_likelihood_def_before_use_refuted on the same vine
+            f0 = rec['flow'][0][0]
+            ok1 = (f0['sel']['x'], f0['sel']['y']) == (('M', 3), ('M', 2)) and (int(f0['e'].L), int(f0['e'].R)) == (2, 3)
+            ctx.obligation('witness:first_inputs_order_refuted:replayed-on-real-classes', ok1, 'correspondence', f"level-1 edge (2,3): select_copula got ({VD.show_term(f0['sel']['x'])}, {VD.show_term(f0['sel']['y'])})")
+            r3 = [(r[0], r[2], r[3], r[4]) for r in rec['lik']['reads'] if r[0] == 2]
+            ok2 = r3 == [(2, 1, 0, None), (2, 3, 2, None)]
+            ctx.obligation('witness:likelihood_def_before_use_refuted:replayed-on-real-classes', ok2, 'correspondence', f'tree-3 reads {r3}')
+
+
+# ------------------------------------------------------------------------------------------------ clips, truncated = 0, two columns
+def clip_checks(ctx, quick):
+    """unit level: the real prepare_next_tree / _sample_row with scripted h / percent_point values vs the GENERATED clips evaluated in Coq"""
+    from copulas.bivariate.base import Bivariate
+    eps = VD.library_epsilon()
+    X = VS.make_table(11, 3, 40, 'gauss')
+    v, _ = VD.plain_fit('center', X, 2)
+    tree = v.trees[0]
+    vals = [0.0, 1.0, 0.5, eps, 1 - eps, 5e-324, 1 - 2.0 ** -53, 2.0 ** -24, 0.25, 0.75, 1e-300, 0.999999, 1.0, 0.0]
+    n = v.n_sample
+    script = np.array([vals[i % len(vals)] for i in range(n)])
+    saved = {}
+    for c in [Bivariate] + list(Bivariate.subclasses()):
+        if 'partial_derivative' in c.__dict__:
+            saved[c] = c.__dict__['partial_derivative']
+            c.partial_derivative = lambda self, X, _s=script: np.array(_s, copy=True)
+    oldU = [np.array(e.U, copy=True) for e in tree.edges]
+    try:
+        tree.prepare_next_tree()
+        got = [np.array(e.U, dtype=float, copy=True) for e in tree.edges]
+    finally:
+        for c, o in saved.items():
+            c.partial_derivative = o
+        for e, U in zip(tree.edges, oldU):
+            e.U = U
+    exprs, meta = [], []
+    for s in (0, 1):
+        for i, x in enumerate(vals):
+            y = float(got[0][s][i])
+            exprs.append(f'Qeq_bool (vc_clip_U{s}_q {VD.qfrac(x)}) {VD.qfrac(y)}')
+            meta.append(('h', s, x, y))
+    # sampler clip: scripted percent_point values, d = 2 (one inverse) and d = 3 (chains: the clip is applied after every level)
+    sv = [0.0, 1e-9, eps, eps / 2, 0.5, 0.99, 0.995, 1.0, 0.98999, 2.0 ** -23 + 2.0 ** -40]
+    X2 = VS.make_table(12, 2, 40, 'strong')
+    v2, _ = VD.plain_fit('direct', X2, 1)
+    for k, x in enumerate(sv):
+        r = VD.sample_trace_real(v2, k % 2, script=[x])
+        if r['err'] is not None or len(r['pp']) != 1 or len(r['ppf_args']) != 2:
+            ctx.obligation(f'corr:clip:sampler:d2:{k}', False, 'correspondence', f"unexpected sampler behaviour: {r['err']!r} {r['pp']}")
+            continue
+        y = r['ppf_args'][1][1]
+        exprs.append(f'qnear (vc_sample_clip_q {VD.qfrac(x)}) {VD.qfrac(y)}')
+        meta.append(('s', 2, x, y))
+    for f in range(3):
+        r = VD.sample_trace_real(v, f, script=sv[f:] + sv[:f])
+        if r['err'] is not None:
+            ctx.obligation(f'corr:clip:sampler:d3:{f}', False, 'correspondence', f"unexpected sampler behaviour: {r['err']!r}")
+            continue
+        # every percent_point result is clipped before its next use (as y of the next call of the same variable, or as the ppfs argument)
+        uses = [c['y_val'] for c in r['pp']] + [a[1] for a in r['ppf_args']]
+        for c in r['pp']:
+            exprs.append(f"existsb (fun y => qnear (vc_sample_clip_q {VD.qfrac(c['ret'])}) y) [{'; '.join(VD.qfrac(u) for u in uses)}]")
+            meta.append(('s', 3, c['ret'], uses))
+    outs = cases.run_vm_cases(ctx, 'Cases_C17_clip', VM_IMPORTS, exprs, per_file=200, scope_open='Open Scope Q_scope.\n' + QNEAR)
+    for (kind, a, x, y), o in zip(meta, outs):
+        ok = o == 'true'
+        if kind == 'h':
+            ctx.obligation(f'corr:clip:h:U{a}:{x!r}', ok, 'correspondence', f'prepare_next_tree stored {y!r} for h = {x!r}; generated vc_clip_U{a}_q says {o}')
+            if not ok:
+                ctx.violation('clip:h-correction', f"Tree.prepare_next_tree stores {y!r} in edge.U[{a}] for a partial_derivative value {x!r}; the correction generated from the "
+                              f"source (and bridged to clip_h at EPSILON = 2^-23) gives another value", {'h': x, 'stored': y, 'row': a, 'repro': REPRO_HCLIP})
+            ctx.case(('clip-h', a, x), {'clip': 'prepare_next_tree', 'row': a, 'h': x, 'stored': y}, nontrivial=True)
+        else:
+            ctx.obligation(f'corr:clip:sampler:d{a}:{x!r}', ok, 'correspondence', f'percent_point returned {x!r}; next use {y!r}; generated vc_sample_clip_q says {o}')
+            if not ok:
+                ctx.violation('clip:sampler', f"VineCopula._sample_row: a percent_point result {x!r} is passed on as {y!r}; the clip generated from the source "
+                              f"(bridged to clip_s = min(max(., 2^-23), 99/100)) gives another value", {'percent_point': x, 'next_use': y, 'repro': REPRO_SCLIP})
+            ctx.case(('clip-s', a, x), {'clip': '_sample_row', 'd': a, 'percent_point': x, 'next_use': y}, nontrivial=True)
+    # the real U of a fit is strictly inside (0,1) even when h returns exactly 0 / 1: covered by the scripted run above
+    inside = all(np.all((g > 0) & (g < 1)) for g in got)
+    ctx.obligation('oracle:scripted-h-stored-inside-unit-interval', inside, 'correspondence', '')
+    if not inside:
+        ctx.violation('U-not-strictly-inside-unit-interval:scripted', 'Tree.prepare_next_tree stores values outside (0,1) when partial_derivative returns exactly 0 or 1 '
+                      f'(h values {vals}): {got[0].tolist()[0][:14]}', {'repro': REPRO_HCLIP})
+
+
+# decimal literals of the source (0.99) are read as exact rationals in the model: compare within 1e-15
+QNEAR = 'From Coq Require Import Qabs.\nDefinition qnear (a b : Q) : bool := Qle_bool (Qabs (a - b)) (1 # 1000000000000000).\n'
+
+REPRO_HCLIP = '''import numpy as np, warnings
+warnings.filterwarnings('ignore')
+from vf import vinedata as VD, vinestruct as VS
+from copulas.bivariate.base import Bivariate
+from copulas.utils import EPSILON
+v, _ = VD.plain_fit('center', VS.make_table(11, 3, 40, 'gauss'), 2)
+vals = np.array([0.0, 1.0, 0.5, 0.25] * 10)
+for c in [Bivariate] + list(Bivariate.subclasses()):
+    if 'partial_derivative' in c.__dict__:
+        c.partial_derivative = lambda self, X: vals.copy()
+v.trees[0].prepare_next_tree()
+U = np.array(v.trees[0].edges[0].U)
+exp = np.array([2.0 ** -23, 1 - 2.0 ** -23, 0.5, 0.25] * 10)
+print(U[:, :4])
+assert np.array_equal(U[0], exp) and np.array_equal(U[1], exp) and np.all((U > 0) & (U < 1))
+'''
+
+REPRO_SCLIP = '''import numpy as np, warnings
+warnings.filterwarnings('ignore')
+from vf import vinedata as VD, vinestruct as VS
+v, _ = VD.plain_fit('direct', VS.make_table(12, 2, 40, 'strong'), 1)
+for x, want in ((0.0, 2.0 ** -23), (0.5, 0.5), (0.995, 0.99), (1.0, 0.99)):
+    r = VD.sample_trace_real(v, 0, script=[x])
+    print(x, r['ppf_args'])
+    assert r['ppf_args'][1][1] == want
+'''
+
+REPRO_T0 = '''import numpy as np, pandas as pd, warnings
+warnings.filterwarnings('ignore')
+from copulas.multivariate import VineCopula
+rng = np.random.default_rng(5)
+X = pd.DataFrame(rng.multivariate_normal([0, 0], [[1, .7], [.7, 1]], 100), columns=['a', 'b'])
+v = VineCopula('{vt}', random_state=1)
+v.fit(X, truncated=0)          # accepted: one tree is built, get_likelihood works
+print(v.get_likelihood(np.array([[0.3, 0.6]])))
+s = v.sample(3)                # property: 3 rows, columns a, b, no missing values
+assert s.shape == (3, 2) and not s.isna().any().any()
+'''
+
+
+def truncated_zero(ctx):
+    """fit(X, truncated=0) is accepted (one tree; C16: max(1, min(d-1, t)) trees); the sampler then skips every level"""
+    exprs, runs = [], []
+    for vt in VTS:
+        for d in (2, 3):
+            X = VS.make_table(77 + d, d, 60, 'gauss')
+            try:
+                v, _ = VD.plain_fit(vt, X, 0, random_state=1)
+            except Exception as ex:      # noqa
+                ctx.violation(f'fit-raises:{vt}:{type(ex).__name__}', f'VineCopula({vt!r}).fit(table with {d} columns, truncated=0) raised {type(ex).__name__}: {ex}',
+                              {'repro': REPRO_T0.format(vt=vt)})
+                continue
+            struct = VS.edges_of(v.trees)
+            tr = [VD.sample_trace_real(v, f) for f in range(d)]
+            try:
+                with warnings.catch_warnings():
+                    warnings.simplefilter('ignore')
+                    s = v.sample(2)
+                res = None if (s.shape == (2, d) and not s.isna().any().any()) else f'bad output {s.shape}'
+            except Exception as ex:      # noqa
+                res = ex
+            runs.append((vt, d, struct, tr, res))
+            exprs.append(f'map (fun f => show_trace (sample_trace {VS.coq_edges(struct)} 0 f)) (seq 0 {d})')
+    outs = cases.run_vm_cases(ctx, 'Cases_C17_t0', VM_IMPORTS, exprs, per_file=50, scope_open=VD.VM_SCOPE)
+    for (vt, d, struct, tr, res), o in zip(runs, outs):
+        m = VD.parse(o)
+        model_raises = isinstance(m, list) and all(x is None for x in m)
+        real_raises = all(t['err'] is not None for t in tr)
+        ok = (model_raises == real_raises) and not isinstance(m, str)
+        ctx.obligation(f'corr:sampler:truncated0:{vt}:d{d}', ok, 'correspondence', f"model {m}; real errors {[repr(t['err']) for t in tr]}")
+        ctx.case(('truncated0', vt, d), {'vine_type': vt, 'd': d, 'truncated': 0, 'sample': repr(res), 'model_sample_trace': str(m)}, nontrivial=True)
+        if not ok:
+            ctx.violation(f'corr:sampler-trace:{vt}', f'VineCopula({vt!r}) fitted with truncated=0 on {d} columns: _sample_row {[repr(t["err"]) for t in tr]}, model {m}',
+                          {'structure': struct, 'repro': REPRO_T0.format(vt=vt)})
+        if res is not None:
+            name = type(res).__name__ if isinstance(res, Exception) else 'bad-output'
+            ctx.violation(f'sample-raises:truncated0:{name}', f"VineCopula({vt!r}).fit(X, truncated=0) is accepted (one tree, get_likelihood works) but sample(n) "
+                          f"{'raises ' + name + ': ' + str(res) if isinstance(res, Exception) else res}: every level is skipped by `if i >= self.truncated: continue`, the local `tmp` is never bound",
+                          {'vine_type': vt, 'd': d, 'structure': struct, 'repro': REPRO_T0.format(vt=vt)})
+
+
+def copula_tau(name, theta):
+    """Kendall tau of an Archimedean family member (closed forms; Frank through the Debye function)"""
+    name = VD.tname(name)
+    th = float(theta)
+    if name == 'clayton':
+        return th / (th + 2)
+    if name == 'gumbel':
+        return 1 - 1 / th
+    if name == 'frank':
+        if abs(th) < 1e-9:
+            return 0.0
+        from scipy.integrate import quad
+        d1 = quad(lambda x: x / math.expm1(x) if x != 0 else 1.0, 0, th)[0] / th
+        return 1 - 4 / th * (1 - d1)
+    if name == 'independence':
+        return 0.0
+    return float('nan')
+
+
+REPRO_2COL = '''import numpy as np, warnings, scipy.stats
+warnings.filterwarnings('ignore')
+from vf import vinedata as VD, vinestruct as VS
+from vf.props.C17 import copula_tau
+X = VS.make_table({tseed}, 2, {n}, {kind!r})
+v, _ = VD.plain_fit({vt!r}, X, 1, random_state={seed})
+S = v.sample({N})
+e = v.trees[0].edges[0]
+for j, c in enumerate(X.columns):
+    x = np.sort(S[c].to_numpy()); F = v.unis[j].cumulative_distribution(x); k = np.arange(1, len(x) + 1) / len(x)
+    D = max(np.max(np.abs(F - k)), np.max(np.abs(F - k + 1 / len(x))))
+    print(c, 'KS distance to the fitted marginal', D)
+    assert D <= {ks_band}
+tau = scipy.stats.kendalltau(S.iloc[:, 0], S.iloc[:, 1])[0]
+print('sample tau', tau, 'copula tau', copula_tau(e.name, e.theta))
+assert abs(tau - copula_tau(e.name, e.theta)) <= {tau_band}
+'''
+
+
+def two_columns(ctx, quick):
+    """search only (statistical, false-alarm level <= 1e-9 per run): KS band from the DKW inequality + 0.01 for the documented collapse of the
+    top 1 % to ppf(0.99); Kendall tau band from Hoeffding's inequality for U-statistics + 0.04 for the collapse"""
+    import scipy.stats
+    N = 600 if quick else 3000
+    ntests = 9 * 3
+    alpha = 1e-9 / ntests
+    ks_band = math.sqrt(math.log(2 / alpha) / (2 * N)) + 0.01 + 1e-3
+    tau_band = math.sqrt(2 * math.log(2 / alpha) / (N // 2)) + 0.04
+    ctx.extra['two_columns_bands'] = {'N': N, 'ks_band': ks_band, 'tau_band': tau_band, 'alpha_per_test': alpha}
+    k = 0
+    for vt in VTS:
+        for kind in (('strong', 'gauss') if quick else ('strong', 'gauss', 'mixed')):
+            k += 1
+            tseed, n, seed = 500 + 31 * k + int(ctx.seed), 100, 40 + k + int(ctx.seed)
+            X = VS.make_table(tseed, 2, n, kind)
+            try:
+                v, _ = VD.plain_fit(vt, X, 1, random_state=seed)
+                with warnings.catch_warnings():
+                    warnings.simplefilter('ignore')
+                    S = v.sample(N)
+            except Exception as ex:      # noqa
+                ctx.violation(f'sample-raises:{vt}:{type(ex).__name__}', f'two-column table ({kind}, seed {tseed}): fit/sample raised {type(ex).__name__}: {ex}',
+                              {'repro': REPRO_2COL.format(tseed=tseed, n=n, kind=kind, vt=vt, seed=seed, N=N, ks_band=ks_band, tau_band=tau_band)})
+                continue
+            e = v.trees[0].edges[0]
+            rp = {'vine_type': vt, 'table': kind, 'table_seed': tseed, 'N': N,
+                  'repro': REPRO_2COL.format(tseed=tseed, n=n, kind=kind, vt=vt, seed=seed, N=N, ks_band=ks_band, tau_band=tau_band)}
+            shape_ok = S.shape == (N, 2) and list(S.columns) == list(X.columns) and bool(np.isfinite(S.to_numpy(dtype=float)).all())
+            if not shape_ok:
+                ctx.violation(f'sample-bad-output:{vt}', f'two-column table: sample({N}) has shape {S.shape}, columns {list(S.columns)}', rp)
+                continue
+            Ds = []
+            for j, c in enumerate(X.columns):
+                x = np.sort(S[c].to_numpy(dtype=float))
+                F = np.asarray(v.unis[j].cumulative_distribution(x), dtype=float)
+                kk = np.arange(1, N + 1) / N
+                D = float(max(np.max(np.abs(F - kk)), np.max(np.abs(F - kk + 1.0 / N))))
+                Ds.append(D)
+                if D > ks_band:
+                    ctx.violation(f'two-columns:marginal:{vt}', f"VineCopula({vt!r}) on a two-column {kind} table (seed {tseed}): column {c!r} of sample({N}) is at Kolmogorov "
+                                  f"distance {D:.3f} > {ks_band:.3f} from the fitted marginal", rp)
+            tau = float(scipy.stats.kendalltau(S.iloc[:, 0], S.iloc[:, 1])[0])
+            ct = copula_tau(e.name, e.theta)
+            if not abs(tau - ct) <= tau_band:
+                ctx.violation(f'two-columns:tau:{vt}', f"VineCopula({vt!r}) on a two-column {kind} table (seed {tseed}): Kendall tau of sample({N}) is {tau:.3f}, the selected "
+                              f"{VD.tname(e.name)} copula (theta = {float(e.theta):.4g}) has tau {ct:.3f} (band {tau_band:.3f})", rp)
+            top = [float(np.mean(np.isclose(S[c].to_numpy(dtype=float), float(np.ravel(v.ppfs[j](np.array([0.99])))[0])))) for j, c in enumerate(X.columns)]
+            ctx.case(('two-columns', vt, kind), {'vine_type': vt, 'table': kind, 'table_seed': tseed, 'N': N, 'ks': Ds, 'sample_tau': tau, 'copula': VD.tname(e.name),
+                                                 'theta': float(e.theta), 'copula_tau': ct, 'share_of_rows_at_ppf(0.99)': top}, nontrivial=True)
+
+
+# ------------------------------------------------------------------------------------------------ run
+def run(ctx):
+    quick = ctx.tier == 'quick'
+    status, info = VD.generate_clips(ctx)
+    for k, err in status.items():
+        ctx.obligation(f'translate:{k}', err is None, 'translation', err or '')
+    ctx.extra['generated_from'] = info
+    ctx.copy_src('Props/C17.v')
+    compiled = ctx.compile(['Gen_vineclip.v', 'C17.v'])
+    ctx.rule('fits: VineCopula(type).fit(vinestruct.make_table(seed, d, n, kind), truncated=t) for type in center/direct/regular, d = 2..6, t in {1,2,3,d-1}, '
+             'n = 60..100 rows, table kinds Gaussian / strongly dependent / heavy-tailed / non-linear / independent / rounded (ties), plus three fixed tables whose '
+             'fitted structure is the witness of a refutation theorem; arrays tagged by content; np.empty of copulas.multivariate.tree / vine replaced by logging '
+             'arrays with distinct content per cell; structure + level-1 pairs -> Model.VineData.vine_data_of / tau_matrix_cols / vine_lik / sample_trace by vm_compute')
+    ctx.rule('per fit: get_likelihood on one row u (0.11 + 0.13 i, shifted with the seed), every item read of every uni_matrix logged; every first_ind of _sample_row with '
+             'np.random.uniform / randint, percent_point, ppfs replaced by recorders (thetas carry edge identities); sample(3)')
+    ctx.rule('unit level: prepare_next_tree with scripted h values {0, 1, 0.5, EPSILON, 1-EPSILON, 5e-324, 1-2^-53, ...} and _sample_row with scripted percent_point '
+             'values {0, 1e-9, EPSILON, 0.5, 0.99, 0.995, 1, ...} vs the generated clips evaluated in Coq; fit(X, truncated=0) for d = 2, 3')
+    ctx.rule('two-column tables (3 types x 2..3 kinds): sample(N) vs fitted KDE marginals (DKW band) and the selected copula\'s Kendall tau (Hoeffding band), search only')
+    stats = {'edges': 0, 'edges_ok': 0, 'edges_swapped': 0, 'edges_wrong': 0, 'level1_inputs_in_path_order': 0, 'F10': {}, 'lik_runs': 0, 'lik_garbage': {},
+             'families': {}, 'witnesses': {}}
+    plan = make_plan(ctx, quick)
+    recs, exprs = [], []
+    for p in plan:
+        rec = trace_plan(p, int(ctx.seed))
+        recs.append(rec)
+        if rec.get('exc') is not None:
+            ex = rec['exc']
+            ctx.obligation(f"fit:{p['vt']}:d{p['d']}:t{p['t']}:{p['kind']}", False, 'correspondence', repr(ex))
+            ctx.violation(f"fit-raises:{p['vt']}:{type(ex).__name__}", f"VineCopula({p['vt']!r}).fit on a {p['kind']} table with {p['d']} columns, truncated={p['t']} raised "
+                          f"{type(ex).__name__}: {ex}", {'plan': {k: p[k] for k in ('vt', 'd', 't', 'kind', 'n', 'tseed')}, 'repro': repro(p, 'repro_columns')})
+            continue
+        rec['i'] = len(exprs)
+        exprs.append(coq_expr(rec))
+    iw = len(exprs)
+    exprs += [f"show_vine ({w['coq']})" for w in WITNESSES]
+    outs = cases.run_vm_cases(ctx, 'Cases_C17_flow', VM_IMPORTS, exprs, per_file=8 if quick else 20, scope_open=VD.VM_SCOPE)
+    for rec in recs:
+        if 'i' in rec:
+            judge(ctx, rec, model_of(outs[rec['i']]), stats)
+    witnesses(ctx, recs, outs[iw:], stats)
+    clip_checks(ctx, quick)
+    truncated_zero(ctx)
+    two_columns(ctx, quick)
+    ctx.extra['data_flow'] = {k: stats[k] for k in ('edges', 'edges_ok', 'edges_swapped', 'edges_wrong', 'level1_inputs_in_path_order')}
+    ctx.extra['F10_edges_by_type_and_tree'] = stats['F10']
+    ctx.extra['likelihood'] = {'runs': stats['lik_runs'], 'runs_reading_unwritten_cells': stats['lik_garbage']}
+    ctx.extra['families_selected'] = stats['families']
+    ctx.extra['refutation_witnesses'] = stats['witnesses']
+    ctx.extra['out_of_scope_observations'] = [
+        'get_likelihood with a multi-row uni_matrix: tree 1 takes the log of the SUM of the row densities and the deeper trees only see row 0 of the h values '
+        '(np.ravel(...)[0]); the property quantifies over one point u in (0,1)^d, the model is for one row',
+        'for d >= 3 the row sampler conditions every inverse h-function on the raw uniform of the variable visited last (unis[visited[0]]) and examines only the first '
+        'edge containing the current variable in trees >= 2 (Spec.VineSampleR.sample_three_columns): the property claims the sampling law only for two columns',
+        'at level 1 D- and R-vines hand the two marginal columns to select_copula in path / Prim order, not (L, R) order (C17_first_inputs_order_refuted): harmless for '
+        'exchangeable families, level 1 recomputes its h-functions from (L, R)']
+    ctx.trusted += ['Model.VineData is a hand-written transcription of the data plane of copulas/multivariate/tree.py and vine.py; tied by the tagged-array correspondence on every run',
+                    'arrays are identified by content (columns of pseudo-observations are pairwise distinct); thetas carry edge identities in the sampler trace',
+                    'select_copula, the pair-copula kernels (C06-C08), GaussianKDE and scipy.stats.kendalltau are oracles: which arrays they receive is checked, not what they compute',
+                    'numeric literals of the clips are read as the decimal rationals written in the source (0.99 = 99/100); IEEE rounding of the literal is not modelled',
+                    'the harness instruments copulas.multivariate.tree / vine and copulas.bivariate by monkeypatching (np -> proxy with logging np.empty, select_copula, '
+                    'partial_derivative, probability_density, percent_point, prepare_next_tree, get_tau_matrix, get_likelihood, np.random.uniform / randint), restored afterwards']
+    ctx.assumptions += ['one-row uni_matrix in get_likelihood; u in (0,1)^d', 'truncated >= 1 for the sampler theorems (truncated = 0: finding)',
+                        'h in [0,1] for the strict-interior theorem (a finite-difference h slightly outside [0,1] is stored as it is: Spec.VineClip.clip_negative)',
+                        'statistical clauses (marginals / Kendall tau reproduced within sampling error) are residue: proved core = C17_two_columns + C09; the KS / tau bands are search only',
+                        'F(i | S) provenance is exact for hereditarily good edges (all of levels 1-2, every C-vine); D-/R-vine edges from level 3 on may be bad: F10']
+    return compiled
